@@ -210,6 +210,15 @@ def make_sim_ec_key(real_key, entropy: Entropy, rare: dict):
     return SimECKey(real_key)
 
 
+def der_contains(key, pattern: bytes) -> bool:
+    """Does the PKCS8 private or the SubjectPublicKeyInfo public DER encoding of the key contain the byte pattern?"""
+    from cryptography.hazmat.primitives import serialization as ser
+
+    priv = key.private_bytes(ser.Encoding.DER, ser.PrivateFormat.PKCS8, ser.NoEncryption())
+    pub = key.public_key().public_bytes(ser.Encoding.DER, ser.PublicFormat.SubjectPublicKeyInfo)
+    return pattern in priv or pattern in pub
+
+
 def coordinate_matches(pn, nbytes, want) -> bool:
     """want: 'x' | 'y' | 'x2' | 'y2' (one / two leading zero bytes) or [coord, 'lead'|'trail', byte value, count]."""
     if isinstance(want, str):
@@ -259,8 +268,10 @@ class CryptoSeam:
                 dval = int.from_bytes(entropy.take(nbytes + 8, "keygen"), "big") % (n - 1) + 1
                 key = ec.derive_private_key(dval, curve)
                 if want and tries < 6000:
-                    pn = key.public_key().public_numbers()
-                    if not coordinate_matches(pn, nbytes, want):
+                    if isinstance(want, list) and want[0] == "der":
+                        if not der_contains(key, bytes.fromhex(want[1])):
+                            continue
+                    elif not coordinate_matches(key.public_key().public_numbers(), nbytes, want):
                         continue
                 pn = key.public_key().public_numbers()
                 rare.setdefault("keylog", []).append(
@@ -268,11 +279,19 @@ class CryptoSeam:
                 )
                 return key
 
+        def _ed_generate(klass, n):
+            want = rare.get("key")
+            for tries in range(6000):
+                key = klass.from_private_bytes(entropy.take(n, "keygen"))
+                if isinstance(want, list) and want[0] == "der" and tries < 5999 and not der_contains(key, bytes.fromhex(want[1])):
+                    continue
+                return key
+
         def ed25519_generate(cls):
-            return ed25519.Ed25519PrivateKey.from_private_bytes(entropy.take(32, "keygen"))
+            return _ed_generate(ed25519.Ed25519PrivateKey, 32)
 
         def ed448_generate(cls):
-            return ed448.Ed448PrivateKey.from_private_bytes(entropy.take(57, "keygen"))
+            return _ed_generate(ed448.Ed448PrivateKey, 57)
 
         patches = [
             (serialization, "load_pem_private_key", load_pem_private_key),
